@@ -587,6 +587,49 @@ static void build(vf::Plan &plan, const vf::Opts &o)
     add_from_stage<double>(plan, "double-grid", dg);
     add_from_stage<float>(plan, "float-grid", fg);
 
+    // stream insertion with the stream at every fill level around its capacity boundaries (in-object 256, first heap
+    // block 512, second 1,024): renderings of every length 1..13 (%g never gives more)
+    {
+        static const double SV[] = {0.0, -0.0, 5.0, -5.0, 1.5, -1.25, 12.5, 1e10, -1e10, 1.5e10, 123456.0, -123456.0, 1.23456e-5, -1.23456e-5,
+                                    1.23456e+20, -1.23456e+20, 1.23456e-100, -1.23456e-100, 1.7976931348623157e308, -1.7976931348623157e308,
+                                    4.9406564584124654e-324, -4.9406564584124654e-324, std::numeric_limits<double>::infinity(),
+                                    -std::numeric_limits<double>::infinity(), std::numeric_limits<double>::quiet_NaN()};
+        enum { NSV = sizeof SV / sizeof *SV };
+        static const unsigned CAPS[3] = {256, 512, 1024};
+        plan.stage(strf("stream: fill levels capacity-20..capacity+2 for capacities 256/512/1024 x %u doubles and floats, << v << \"|\"", (unsigned)NSV),
+                   (uint64_t)3 * 23 * NSV * 2,
+                   [](uint64_t i, Ctx &c) {
+                       bool as_float = vf::take(i, 2) != 0;
+                       unsigned vi = (unsigned)vf::take(i, NSV), off = (unsigned)vf::take(i, 23), cap = CAPS[i % 3];
+                       size_t fill = cap - 20 + off;
+                       double v = as_float ? (double)(float)SV[vi] : SV[vi];
+                       std::string want = std::string(fill, 'p') + ref::c_printf(false, -1, 'g', v) + "|";
+                       vf::Outcome oc = vf::guard([&] {
+                           ST::string_stream ss;
+                           ss.append_char('p', fill);
+                           if (as_float) ss << (float)SV[vi] << "|";
+                           else ss << SV[vi] << "|";
+                           VF_COUNT("ops");
+                           VF_COUNT("validated");
+                           std::string got(ss.raw_buffer(), ss.size());
+                           if (got != want)
+                               c.fail(strf("string_stream<<{%s}:at-capacity-boundary:text", as_float ? "float" : "double"),
+                                      strf("stream holding %zu bytes << %s: tail %s, expected %s", fill, dstr(v).c_str(),
+                                           vf::vis(got.substr(std::min(got.size(), fill))).c_str(), vf::vis(want.substr(fill)).c_str()));
+                       });
+                       if (!oc.ok())
+                           c.fail(strf("string_stream<<{%s}:at-capacity-boundary:%s", as_float ? "float" : "double",
+                                       oc.kind == vf::EX_ASSERT ? "assert" : vf::outkind_name(oc.kind)),
+                                  strf("stream holding %zu bytes << %s: %s", fill, dstr(v).c_str(), oc.str().c_str()));
+                       c.nontrivial();
+                   },
+                   [](uint64_t i) {
+                       bool as_float = vf::take(i, 2) != 0;
+                       unsigned vi = (unsigned)vf::take(i, NSV), off = (unsigned)vf::take(i, 23), cap = CAPS[i % 3];
+                       return strf("stream holding %u bytes << (%s)%s", cap - 20 + off, as_float ? "float" : "double", dstr(SV[vi]).c_str());
+                   });
+    }
+
     // every format letter
     plan.stage("from:all-256-letters-x-24-values-x{from_double,from_float}", 256ull * NPADVALS * 2,
                [](uint64_t i, Ctx &c) {
